@@ -122,7 +122,7 @@ CHECKS = {'C01': {'level': 'exploration',
          'assumptions': ['the replica has the same schema (columns created at the same history points) and the same index definitions',
                          'comparison happens when the primary is quiescent'],
          'tests': [{'run': '^TestC06$',
-                    'checks': {'quick': 200, 'thorough': 2500},
+                    'checks': {'quick': 400, 'thorough': 2500},
                     'shards': {'quick': 1, 'thorough': 8},
                     'timeout': {'quick': 900, 'thorough': 3400},
                     'env': {'GOMAXPROCS': 1}},
